@@ -111,3 +111,33 @@ class coll_update_self_config:
     }
     exit_lemmas = ["psum_congruence([c.n_mazes for c in self.cfg.maze_dataset_configs], [len(d.mazes) for d in self.maze_datasets], len(self.maze_datasets))"]
     props = ["C16"]
+
+
+CD_ = "maze_dataset/dataset/collected_dataset.py"
+_MCFG = T.ObjT("MazeDatasetConfig")  # a member configuration is an opaque object: `c.serialize()` is an unknown function of the receiver c
+
+
+@contract(CD_, "MazeDatasetCollectionConfig.maze_dataset_configs@serialization_fn")
+class member_configs_serialization_fn:
+    """C05 (collections: member configurations survive serialization, in order): the serializer lambda of the field (read as def f(configs): return <expression>)
+    stores one entry per member configuration, in member order, each being that member's own `serialize()`."""
+    params = dict(configs=T.ListT(_MCFG))
+    ensures = {
+        "C05.collection.member-configs.count": "len(result) == len(configs)",
+        "C05.collection.member-configs.in-order": "forall(lambda k: result[k] == configs[k].serialize(), (0, len(configs)))",
+    }
+    options = dict(no_concrete=True)
+    props = ["C05"]
+
+
+@contract(CD_, "MazeDatasetCollectionConfig.maze_dataset_configs@loading_fn")
+class member_configs_loading_fn:
+    """C05: the loader lambda restores one member configuration per stored entry, in the stored order, each through `MazeDatasetConfig.load` of that entry
+    (`load` is generated by the muutils decorator: an unknown pure function here; its own round trip is C18's business)."""
+    params = dict(data=T.PyDictT(maze_dataset_configs=T.ListT(T.ObjT("serialized"))), MazeDatasetConfig=T.ObjT("class MazeDatasetConfig"))  # `MazeDatasetConfig.load(x)`: an unknown function of (class, x)
+    ensures = {
+        "C05.collection.member-configs.loaded-count": "len(result) == len(data['maze_dataset_configs'])",
+        "C05.collection.member-configs.loaded-in-order": "forall(lambda k: result[k] == MazeDatasetConfig.load(data['maze_dataset_configs'][k]), (0, len(result)))",
+    }
+    options = dict(no_concrete=True)
+    props = ["C05"]
